@@ -204,6 +204,22 @@ CLAIMED = {
             "storage), T-store. The thorough tier's scenario (bounded) races six creators and re-creates over lost / garbage "
             "pointers on the real code.",
             "DESIGN.md 4/C18"),
+    "C11": ("Proof of the contracts that decide WHICH appends are accepted and with what Arrow schema they are written: "
+            "_schema_signature yields one entry per field, in field order, carrying id, name, type and nullability (loop "
+            "invariant, unbounded field list); _validate_schema_against_table accepts an argument iff its signature equals the "
+            "persisted schema's and touches no storage; create_arrow_schema returns, also on cache hits, a schema built from "
+            "fields equal to the argument's (two-call relational harness, cache key must determine the fields), one Arrow field "
+            "per schema field with its name/type and nullable = not required; _validate_file_schema accepts a parquet file iff "
+            "its footer schema equals the table's and rejects unverifiable footers; append_data: rejected appends queue nothing "
+            "and touch storage only behind the marker, no schema at all raises before writing. Three defects found by these "
+            "obligations / the bounded scenario were repaired in /repo (1a3ee5b, bebf98f, 3d202df); schema-less tables accepting "
+            "diverging explicit schemas is carried as a known finding.",
+            "Trusted: T-arrow value coercion and Schema.equals (the assumption 'pyarrow raises on unrepresentable values' was "
+            "found FALSE for fractional floats into integer columns by the scenario and is now enforced in "
+            "validate_records_strict), json.dumps injective on field lists, T-store. BOUNDED, not counted as proved: "
+            "validate_records_strict on a one-field schema and a single-key record (all values symbolic); value classes x "
+            "column types x schema-argument variants x fresh/reused handles in the thorough-tier scenario.",
+            "DESIGN.md 4/C11"),
     "C16": ("Proof over the trace of T-os calls issued by the real code: LocalStorageBackend.write_file writes the whole content to a "
             "temp file in the target's directory, fsyncs it after the last write and before os.replace, fsyncs the directory after, and "
             "an exception implies the rename did not happen; DataFileWriter.open/close do the same for parquet files (fsync of the "
